@@ -58,12 +58,25 @@ ASetMantExp == \E z, x \in Reg, e \in {-3, -1, 0, 1, 2, 2147483647, -2147483647}
   Write(z, OpSetMantExp(regs[z], regs[x], IFromInt(e)), [op |-> "SetMantExp", z |-> z, x |-> x, e |-> ToString(e)])
 AMantExp == \E z, x \in Reg : Write(z, OpMantExp(regs[z], regs[x]), [op |-> "MantExp", z |-> z, x |-> x])
 ANew == \E z \in Reg : /\ regs' = [regs EXCEPT ![z] = ZeroValue] /\ last' = [op |-> "New", z |-> z]
+(* NewDecimal: a fresh Decimal (precision 34, ToNearestEven) = v * 10^e, saturating; e is any int *)
+ANewDecimal == \E z \in Reg, v \in SmallInts, e \in {0, 5, -3, 2147483647, 2147483645, -2147483647} :
+  Write(z, OpNewDecimal(v < 0, FromInt(IF v < 0 THEN -v ELSE v), IFromInt(e)), [op |-> "NewDecimal", z |-> z, i |-> ToString(v), e |-> ToString(e)])
+(* x -> GobEncode -> GobDecode into z: everything is copied into a zero-precision receiver, otherwise the value is *)
+(* rounded to z's precision and mode                                                                              *)
+AGob == \E z, x \in Reg :
+  LET zz == regs[z]  xx == regs[x]
+      w  == IF zz.prec = 0 THEN Outcome("ok", xx, {}, {"C17"}) ELSE Ok(SetLike(xx.neg, xx, zz.prec, zz.mode), zz.prec, zz.mode, {"C17"})
+  IN Write(z, w, [op |-> "GobRoundTrip", z |-> z, x |-> x])
 (* observers leave the state unchanged *)
-AObs == \E x, y \in Reg : /\ UNCHANGED regs /\ last' \in {[op |-> "Cmp", x |-> x, y |-> y], [op |-> "Preds", x |-> x], [op |-> "IsInt", x |-> x], [op |-> "BitsExp", x |-> x]}
+(* (conversions only of values with a moderate exponent: the specification computes them exactly) *)
+ConvSmall(d) == d.form # "finite" \/ Len(d.exp.mag) <= 3
+AObs == \E x, y \in Reg : /\ UNCHANGED regs
+                          /\ last' \in {[op |-> "Cmp", x |-> x, y |-> y], [op |-> "Preds", x |-> x], [op |-> "IsInt", x |-> x], [op |-> "BitsExp", x |-> x]}
+                                       \cup (IF ConvSmall(regs[x]) THEN {[op |-> "Int64", x |-> x], [op |-> "Uint64", x |-> x], [op |-> "Float64", x |-> x], [op |-> "Float32", x |-> x]} ELSE {})
 
 SNext == \/ ALoad \/ ABin("Add", OpAdd) \/ ABin("Sub", OpSub) \/ ABin("Mul", OpMul) \/ ABin("Quo", OpQuo) \/ AFMA
          \/ AUn("Sqrt", OpSqrt) \/ AUn("Neg", OpNeg) \/ AUn("Abs", OpAbs) \/ AUn("Set", OpSet) \/ AUn("Copy", OpCopy)
-         \/ ASetPrec \/ ASetMode \/ ASetInf \/ ASetInt64 \/ ASetMantExp \/ AMantExp \/ ANew \/ AObs
+         \/ ASetPrec \/ ASetMode \/ ASetInf \/ ASetInt64 \/ ASetMantExp \/ AMantExp \/ ANew \/ ANewDecimal \/ AGob \/ AObs
 
 SSpec == SInit /\ [][SNext]_svars
 
@@ -72,12 +85,14 @@ AllWellFormed == \A r \in Reg : WellFormed(regs[r])
 
 (* C09 as action properties: precision changes only from 0 (or by the operations documented to set it), *)
 (* the mode only by SetMode / the attribute-copying operations; registers that are not the receiver keep everything *)
-AttrOps == {"SetPrec", "Copy", "SetMantExp", "MantExp", "Load", "New"}
+AttrOps == {"SetPrec", "Copy", "SetMantExp", "MantExp", "Load", "New", "NewDecimal"}
 PrecSticky == [][\A r \in Reg : regs'[r].prec # regs[r].prec =>
                    /\ "z" \in DOMAIN last' /\ r = last'.z
                    /\ (regs[r].prec = 0 \/ last'.op \in AttrOps)]_svars
 ModeSticky == [][\A r \in Reg : regs'[r].mode # regs[r].mode =>
-                   "z" \in DOMAIN last' /\ r = last'.z /\ last'.op \in (AttrOps \ {"SetPrec"}) \cup {"SetMode"}]_svars
+                   /\ "z" \in DOMAIN last' /\ r = last'.z
+                   /\ \/ last'.op \in (AttrOps \ {"SetPrec"}) \cup {"SetMode"}
+                      \/ last'.op = "GobRoundTrip" /\ regs[r].prec = 0]_svars       \* decoding into a zero-precision receiver copies everything
 OperandsUntouched == [][\A r \in Reg : ("z" \notin DOMAIN last' \/ r # last'.z) => regs'[r] = regs[r]]_svars
 
 (* (G): printing the label turns a behaviour into a program *)
